@@ -412,7 +412,12 @@ fn fixed_probes() -> Vec<Probe> {
         p("type-qualified-channel-array-members", w!("B_12.abra"), Want::Out("9\n2\n")),
         p("extend-void-bool-string-tuple", w!("B_17.abra"), Want::Out("void!\nfalse\nabab\n7\n")),
         // D99: implement an interface for a function type, called through the interface name
-        p("D99-impl-for-function-type-qualified", w!("B_20.abra"), Want::NoCrash),
+        p("D99-impl-for-function-type-qualified", w!("B_20.abra"), Want::Out("3\n")),
+        p(
+            "D99-impl-for-function-type-all-call-forms",
+            "interface Foo { fn foo(self) -> int }\nimplement Foo for int -> int {\n    fn foo(self) -> int { self(2) }\n}\nfn g(x: T Foo) -> int { Foo.foo(x) }\nlet f = x -> x + 1\nprintln(Foo.foo(f))\nprintln(f.foo())\nprintln(g(f))\n",
+            Want::Out("3\n3\n3\n"),
+        ),
         p("impl-for-function-type-generic", w!("B_20b.abra"), Want::Out("100\n")),
         p("impl-for-channel", w!("B_42.abra"), Want::Out("chan\nchan\n")),
         p("constraint-on-type-definition-parameter", w!("B_06.abra"), Want::Out("3\n")),
@@ -421,9 +426,21 @@ fn fixed_probes() -> Vec<Probe> {
         p("impl-for-instantiated-struct", w!("B_29.abra"), Want::Rejected(&["unless it has generic arguments"])),
         p("iterable-without-iterator-impl", w!("B_30.abra"), Want::Rejected(&["unable to determine `IterableItem`"])),
         // D98: the item type of an unknown `T Iterator` must not unify with int
-        p("D98-output-type-of-constrained-variable", w!("B_31.abra"), Want::Rejected(&[])),
-        // D100: a for loop over a value of type `T Iterable`
-        p("D100-for-over-constrained-iterable", w!("B_46.abra"), Want::Out("3\n")),
+        p("D98-output-type-of-constrained-variable", w!("B_31.abra"), Want::Rejected(&["`IteratorItem` of this type variable is not known here"])),
+        // …and with the item type fixed by the constraint the function is sound and runs
+        p(
+            "D98-output-type-fixed-by-constraint",
+            "fn first_int(it: T Iterator<IteratorItem=int>) -> int {\n    match Iterator.next(it) {\n        .some(x) -> x\n        .none -> 0\n    }\n}\nprintln(first_int([7, 8].make_iterator()) + 1)\n",
+            Want::Out("8\n"),
+        ),
+        // D100: method syntax on a constrained type variable dispatches like the qualified call
+        p(
+            "D100-method-syntax-on-constrained-variable",
+            "interface Foo { fn foo(self) -> string }\ntype Aa = { v: int }\ntype Bb = { v: int }\nimplement Foo for Aa { fn foo(self) -> string { \"Aa.foo\" } }\nimplement Foo for Bb { fn foo(self) -> string { \"Bb.foo\" } }\nimplement Foo for int { fn foo(self) -> string { \"int.foo\" } }\nfn viam(x: T Foo) -> string { x.foo() }\nfn vias(x: T ToString) -> string { x.str() }\nprintln(viam(Aa(1)))\nprintln(viam(Bb(2)))\nprintln(viam(3))\nprintln(vias(41))\n",
+            Want::Out("Aa.foo\nBb.foo\nint.foo\n41\n"),
+        ),
+        // a for loop over a value of type `T Iterable`: a recorded limitation (rejected); if accepted it must count 3
+        p("D100-for-over-constrained-iterable", w!("B_46.abra"), Want::RejectedOrOut("3\n")),
     ]
 }
 
